@@ -76,7 +76,8 @@ class C13Irrigation(Monitor):
         self.maxirr = float(kw.get("MaxIrr", im.MaxIrr))
         self.cap = float(kw.get("MaxIrrSeason", im.MaxIrrSeason))
         self.eff = float(kw.get("AppEff", im.AppEff))
-        self.smt = [float(x) for x in np.asarray(kw.get("SMT", im.SMT), dtype=float)]
+        # thresholds: the user's, else the documented default of the threshold strategy (100 % in all four stages)
+        self.smt = [float(x) for x in np.asarray(kw.get("SMT", [100.0] * 4 if self.method == 1 else im.SMT), dtype=float)]
         self.interval = int(kw.get("IrrInterval", im.IrrInterval))
         self.depth = float(kw.get("depth", im.depth))
         sch = (ctx.spec.get("irr") or {}).get("schedule") or []
